@@ -198,4 +198,93 @@ def multiplyChannelOutFloat (m : MappingMatrix) (input : List Dy) (inputRow inpu
   if ¬ (inputRows ≤ m.cols ∧ outputRows ≤ m.rows) then .abort
   else outFloatLoop m input inputRow inputRows outputRows frameSize 0 output true
 
+/-! ### the 24-bit paths (float build: `opus_res = float`, `opus_val64 = float`) -/
+
+/-- C `(opus_int32)x` of a 64-bit value (two's complement wrap; gcc semantics). -/
+def wrap32 (x : Int) : Int := (x + 2147483648) % 4294967296 - 2147483648
+
+/-- `RES2INT24(a) = float2int(32768.f*256.f*a)` (celt/arch.h:369; x86 `cvtss2si`): the float product
+    `2^23·a` is exact, or overflows to ±inf; round to nearest even; a value outside `int` gives the
+    "integer indefinite" `INT_MIN`. -/
+def res2int24 (a : Dy) : Int :=
+  let r := roundHalfEven a.1 (a.2 + 23)
+  if r < -2147483648 ∨ r > 2147483647 then -2147483648 else r
+
+/-- Inner loop of `in_int24` for sample `i`: `tmp += cell * (float)input[...]` in `float`. -/
+def inInt24Sample (m : MappingMatrix) (input : List Int) (inputRows outputRow i : Nat) :
+    Nat → Dy → Bool → Res (Dy × Bool)
+  | 0, acc, ex => .ok (acc, ex)
+  | k + 1, acc, ex =>
+    let col := inputRows - (k + 1)
+    match cell m outputRow col, input[inputRows * i + col]? with
+    | .ok c, some x =>
+      let xf : Dy := (x, 0)                                -- (opus_val64)input: exact iff dyExact
+      let p : Dy := (c * x, 0)
+      let s := dyAdd acc p
+      inInt24Sample m input inputRows outputRow i k s (ex && dyExact xf && dyExact p && dyExact s)
+    | .ok _, none => .oob
+    | .err e, _ => .err e
+    | .oob, _ => .oob
+    | .abort, _ => .abort
+
+def inInt24Loop (m : MappingMatrix) (input : List Int) (inputRows outputRow : Nat) : Nat → Nat → Res FloatOut
+  | 0, _ => .ok { vals := [], exact := true }
+  | k + 1, i =>
+    match inInt24Sample m input inputRows outputRow i inputRows (0, 0) true with
+    | .ok (s, ex) =>
+      match inInt24Loop m input inputRows outputRow k (i + 1) with
+      | .ok r =>
+        -- INT24TORES((1/32768.f)*tmp) = (1.f/32768.f/256.) * ((1/32768.f)*tmp): the float product by 2^-15,
+        -- then a double product by 2^-23 stored to float
+        let t : Dy := (s.1, s.2 - 15)
+        let o : Dy := (s.1, s.2 - 38)
+        .ok { vals := o :: r.vals, exact := ex && dyExact t && dyExact o && r.exact }
+      | .err e => .err e
+      | .oob => .oob
+      | .abort => .abort
+    | .err e => .err e
+    | .oob => .oob
+    | .abort => .abort
+
+/-- `mapping_matrix_multiply_channel_in_int24` (src/mapping_matrix.c:226-258, float build). -/
+def multiplyChannelInInt24 (m : MappingMatrix) (input : List Int) (inputRows outputRow outputRows frameSize : Nat) :
+    Res FloatOut :=
+  if ¬ (inputRows ≤ m.cols ∧ outputRows ≤ m.rows) then .abort
+  else inInt24Loop m input inputRows outputRow frameSize 0
+
+/-- Rows of `out_int24` for sample `i`: `output[...] += (cell*sample + 16384) >> 15`, the 64-bit sum
+    converted back to `opus_int32` (no saturation). -/
+def outInt24Rows (m : MappingMatrix) (inputRow outputRows i : Nat) (sample : Int) :
+    Nat → List Int → Res (List Int)
+  | 0, out => .ok out
+  | k + 1, out =>
+    let row := outputRows - (k + 1)
+    match cell m row inputRow, out[outputRows * i + row]? with
+    | .ok c, some o =>
+      outInt24Rows m inputRow outputRows i sample k
+        (out.set (outputRows * i + row) (wrap32 (o + (c * sample + 16384) / 32768)))
+    | .ok _, none => .oob
+    | .err e, _ => .err e
+    | .oob, _ => .oob
+    | .abort, _ => .abort
+
+def outInt24Loop (m : MappingMatrix) (input : List Dy) (inputRow inputRows outputRows : Nat) :
+    Nat → Nat → List Int → Res (List Int)
+  | 0, _, out => .ok out
+  | k + 1, i, out =>
+    match input[inputRows * i]? with
+    | none => .oob
+    | some x =>
+      match outInt24Rows m inputRow outputRows i (res2int24 x) outputRows out with
+      | .ok out' => outInt24Loop m input inputRow inputRows outputRows k (i + 1) out'
+      | .err e => .err e
+      | .oob => .oob
+      | .abort => .abort
+
+/-- `mapping_matrix_multiply_channel_out_int24` (src/mapping_matrix.c:260-288). -/
+def multiplyChannelOutInt24 (m : MappingMatrix) (input : List Dy) (inputRow inputRows : Nat) (output : List Int)
+    (outputRows frameSize : Nat) : Res (List Int) :=
+  if ¬ (inputRows ≤ m.cols ∧ outputRows ≤ m.rows) then .abort
+  else outInt24Loop m input inputRow inputRows outputRows frameSize 0 output
+
 end Opus.Projection
